@@ -418,8 +418,16 @@ func vhCutSet(L, E int) []int {
 }
 
 // vhFragmentation chooses `chunks` chunk boundaries (ascending, last one = upTo) and the pauses before them.
+// chunks > 100 means chunks-100 chunks with EVERY position 0..upTo-1 as a candidate boundary.
 func vhFragmentation(s *vhScript, upTo int, E int, chunks int) {
 	set := vhCutSet(upTo, E)
+	if chunks > 100 {
+		chunks -= 100
+		set = nil
+		for c := 0; c < upTo; c++ {
+			set = append(set, c)
+		}
+	}
 	prev := 0
 	for i := 0; i < chunks-1; i++ {
 		k := vndChoice("cut", len(set))
